@@ -53,6 +53,26 @@ CLAIMED = {
             "field-by-field comparison after every operation plus an independent invariant oracle on the real object.",
             "Trusted: Lean kernel; numpy stacking/repeat contracts; joblib sequential order; stubs of harness/vp/calharness.py. Label alignment needs the sampler contract rows = batch_size.",
             "DESIGN.md §4 C02"),
+    "C09": ("Lean 4 proof (round-robin invariant over all op lists of calibrate/checkpoint/restore incl. raising calls; RL bootstrap/agent-action selection; constructor decision table) + differential run of the real calibrator and schedulers",
+            "Proved in Lean for any components and any sequence of calibrate(n)/checkpoint/restore: scheduler position = completed batches; batch i was produced by "
+            "line-up position i mod n with that sampler's batch size (live object and saved state). RL: first batch by the bootstrap sampler (the last supplied Halton, "
+            "else one appended behind the unchanged supplied set), later batches by the index the agent handed over, always inside the line-up; constructor rejects "
+            "exactly both-or-neither. Tied to the code by comparing labels, scheduler state and sampler invocation records after every operation.",
+            "Trusted: Lean kernel; pickle round trip of the scheduler; queue FIFO for the single-session RL runs; the agent exchange itself is C10.",
+            "DESIGN.md §4 C09"),
+    "C14": ("Lean 4 proof (first-index characterisation of the calibration loop by induction; independence of verbosity via a nuisance-stripping simulation; checkpoint = returned state) + bit-exact differential run with scripted losses",
+            "Proved in Lean: a call for n batches runs exactly m = first batch after which the smallest loss rounds to zero (m = n if none), stops immediately after it and not "
+            "before; without a precision it runs exactly n; two calibrators differing only in verbosity/jobs/folder go through the same states; with a folder the checkpoint "
+            "equals the returned state (trigger batch included); minLoss is a true minimum for any strict weak order. Tied to calibrator.py with losses at 0.5*10^-p +-1ulp.",
+            "Trusted: Lean kernel; np.round(x,p)==0 <=> |fl(x*10^p)| <= 0.5 (compared bit-for-bit each run).",
+            "DESIGN.md §4 C14"),
+    "C18": ("Lean 4 proof (table monotone/injective/covering under all op lists of calibrate/checkpoint/set_samplers/set_scheduler; labels identify the class in the current table) + differential run incl. the plotting lookup on calibrator-written folders",
+            "Proved in Lean: the id table only grows (old table is a prefix), stays one-id-per-class and one-class-per-id, covers the line-up and every class that produced a batch, "
+            "and every stored label is the current id of the producing class — for all sequences without restore. For restore the code rebuilds the table from the line-up: "
+            "Lean witness restore_reassigns_ids, recorded as known findings (table not persisted). Tied to the code by table/label comparison after every op and by calling "
+            "plot_results._get_samplers_names on real checkpoints.",
+            "Trusted: Lean kernel; dict insertion order; pickle round trip. Partial: recoverability after set_samplers is a known finding, not proved.",
+            "DESIGN.md §4 C18"),
 }
 NOT_YET = {}
 
